@@ -1,6 +1,7 @@
 import Proofs.C11Rewrite
 import Proofs.C11Slurp
 import Proofs.C11Print
+import Proofs.C11FullConv
 /-!
   C11 — "the internal query rewrite preserves the meaning of the user's program": property theorems.
 
@@ -159,7 +160,48 @@ theorem print_parse_idem (ts : List Print.Tok) (e : Print.E) (h : Print.parse ts
     Print.parse (Print.print e) = some e :=
   Proofs.C11.Print.parse_print_parse ts e h
 
+/-! ### print / parse of the whole term and query grammar (FqModel/C11Full.lean)
+
+  Tokens are the lexer's token classes; the grammar covers every production of the fork's parser.go.y for query, expr,
+  term, string (with interpolation), suffix, args, patterns (destructuring, `?//`), object construction (all key
+  forms, objectval), if/elif/else, try/catch, reduce, foreach (2 and 3 parts), label/break, def with parameters, unary
+  plus/minus, postfix chains — see the header of FqModel/C11Full.lean for the four productions left out.  The Lean
+  parser is tied to the fork's yacc parser by the `pp` cases (both directions, rejections included). -/
+
+/-- The printed token sequence of every well-formed query tree parses back to that tree.  (Parentheses are nodes of
+    the tree: there is nothing to normalise, the printer neither adds nor drops one.) -/
+theorem print_parse_full (e : Full.E) (hw : Full.wf e = true) (hq : Full.cat e = .query) :
+    Full.parse (Full.print e) = some e :=
+  Proofs.C11.Full.print_parse e hw hq
+
+/-- Whatever token sequence the parser accepts yields a well-formed query tree whose printed form is that very
+    sequence: on the accepted language `print` is the inverse of `parse`. -/
+theorem parse_sound_full (ts : List Full.Tok) (e : Full.E) (h : Full.parse ts = some e) :
+    Full.wf e = true ∧ Full.cat e = .query ∧ Full.print e = ts :=
+  Proofs.C11.Full.parse_sound ts e h
+
+/-- ⇒ the property's round trip over the widened grammar: for every syntactically valid token sequence, the printed
+    form of its tree parses to the same tree. -/
+theorem print_parse_idem_full (ts : List Full.Tok) (e : Full.E) (h : Full.parse ts = some e) :
+    Full.parse (Full.print e) = some e :=
+  Proofs.C11.Full.parse_print_parse ts e h
+
 /-! ### non-vacuity and witnesses -/
+
+open Full in
+/-- the hypotheses of the widened theorems are satisfiable by a tree with every kind of construct:
+    `def f($x; g): reduce .a[1:] as [$y, {k: $z}] (0; . + $y) ; label $l | .b as $v ?// [$v] | try -f(1; "s\(.)") catch {a: 1 | 2, "b", (.c): @base64 "x"} | if . then .[0]? elif .. then break $l else foreach .[] as $i (0; .; [.]) end` -/
+example : (parse [.kw .def_, .ident "f", .lparen, .var "$x", .semi, .ident "g", .rparen, .colon,
+    .kw .reduce, .field "a", .lbrack, .num "1", .colon, .rbrack, .kw .as_, .lbrack, .var "$y", .op .comma, .lbrace, .ident "k", .colon,
+    .var "$z", .rbrace, .rbrack, .lparen, .num "0", .semi, .dot, .op .add, .var "$y", .rparen, .semi,
+    .kw .label, .var "$l", .op .pipe, .field "b", .kw .as_, .var "$v", .destalt, .lbrack, .var "$v", .rbrack, .op .pipe,
+    .kw .try_, .op .sub, .ident "f", .lparen, .num "1", .semi, .strStart, .str "s", .strQuery, .dot, .rparen, .strEnd, .rparen,
+    .kw .catch_, .lbrace, .ident "a", .colon, .num "1", .op .pipe, .num "2", .op .comma, .str "b", .op .comma, .lparen, .field "c",
+    .rparen, .colon, .fmt "@base64", .str "x", .rbrace, .op .pipe,
+    .kw .if_, .dot, .kw .then_, .dot, .lbrack, .num "0", .rbrack, .quest, .kw .elif_, .dotdot, .kw .then_, .kw .break_, .var "$l",
+    .kw .else_, .kw .foreach, .dot, .lbrack, .rbrack, .kw .as_, .var "$i", .lparen, .num "0", .semi, .dot, .semi, .lbrack, .dot,
+    .rbrack, .rparen, .kw .end_]).isSome = true := by decide
+
 
 open Print in
 /-- a tree with every construct satisfies the hypothesis of `print_parse` -/
